@@ -10,6 +10,10 @@ CLAIMED = {
          "Lean theorems over Model.Search for every count and every pair of predicates consistent with a sorted list (result = first match or complement of insertion point, probes in range, probe-count bound, termination); model tied to /repo by per-run differential comparison of result and probe log",
          "trusted: Lean kernel, axioms listed in evidence, driver compilation, harness + generators; Go int arithmetic of the midpoint related to Int by lemma",
          "machine-checked proof (Lean 4) + differential correspondence", "DESIGN.md §2 C14"),
+ "C18": ("lean-proof+site-table+race-search",
+         "Lean theorems: a set-based happens-before discipline monitor is sound w.r.t. the declarative happens-before of the Go memory model (accepted trace => no unordered conflicting accesses), and the three synchronisation skeletons used for the repository's plain shared fields (publish-once, ants per-attempt CAS arbitration, mutex-guarded) only produce accepted traces, for any number of goroutines and any interleaving; tie to /repo: every access site of the watched fields is re-extracted from source on each run (srcfacts) and matched by the compiled Lean site table; search for concrete races: race-detector stress (never counted as proof)",
+         "partial by nature: compiler/runtime/memory-model implementation, synchronisation semantics of the primitives and completeness of the access extraction are trusted; the race detector is a search tool only",
+         "machine-checked proof (Lean 4) of publication discipline + regenerated access-site table + race-detector search", "DESIGN.md §2 C18"),
 }
 NOT_CLAIMED = {}
 
